@@ -21,8 +21,9 @@ RULES = {
 ASSUMPTIONS = ['bitcoin::Block::check_merkle_root, Transaction::is_coinbase, compute_ntxid/compute_txid behave as documented']
 
 TXDATA = P.has(P.field('txdata'))
-ID_FUNS = ('bitcoin::blockdata::transaction::Transaction::compute_ntxid', 'bitcoin::blockdata::transaction::Transaction::compute_txid',
-           'bitcoin::blockdata::transaction::Transaction::compute_wtxid')
+# ids that two copies of a transaction differing only in their witness share (the merkle root commits to
+# txids; a wtxid distinguishes witness variants, so it cannot detect a repeated transaction)
+ID_FUNS = ('bitcoin::blockdata::transaction::Transaction::compute_ntxid', 'bitcoin::blockdata::transaction::Transaction::compute_txid')
 
 
 def run(ctx):
@@ -108,7 +109,8 @@ def run(ctx):
         good = len(errs) == 1 and P.exactly(errs[0][2], [P.is_(nxt, 'Some'), P.not_(P.either(ins, ins2))])
         ctx.check(good, 'R3', 'dup-iff-insert-false', eu.where(errs[0][0]) if errs else eu,
                   'DuplicateTransactions exactly when set.insert(id(tx)) returns false, id computed from each transaction',
-                  'duplicate detection is not `!set.insert(tx.compute_*txid())` per transaction: %s' % describe_table(errs))
+                  'duplicate detection is not `!set.insert(tx.compute_ntxid() | compute_txid())` per transaction (a witness-dependent id such as the wtxid does not detect '
+                  'a repeated transaction whose witness was altered): %s' % describe_table(errs))
         # the iterator is over the slice itself (no skip/take/step)
         it = [c for c in eu.calls() if not c.cleanup and c.matches('*::into_iter', '*::iter')]
         bad = [c for c in eu.calls() if not c.cleanup and c.matches('*::skip', '*::take', '*::step_by', '*::filter', '*::skip_while', '*::take_while')]
